@@ -195,6 +195,13 @@ simcall:
 	kmovq	k %+ i, [rsp + 2048 + 8*i]
 %assign i i+1
 %endrep
+	; The save area lies on the library's stack. Whatever the vector registers held at the hook (key material left there by
+	; the code under test, for instance) must not stay behind as a stack residue of the harness's own making: wipe it.
+	; rdi, rcx, rax and the flags are restored from the pushes below.
+	mov	rdi, rsp
+	mov	ecx, 2112 / 8
+	xor	eax, eax
+	rep	stosq
 	mov	rsp, [rsp + 2112]
 	pop	r15
 	pop	r14
